@@ -58,6 +58,11 @@ pub fn tour_call(cx: &mut Ctx, s: &Schedule, before: &Snap, op: &Value) {
 pub fn tour_call_core(cx: &mut Ctx, kind: &str, tour: &Tour, is_dummy: bool, p_nodes: Vec<NodeIdx>, a: Option<NodeIdx>, b: Option<NodeIdx>) {
     let tour = tour.clone();
     let t_nodes: Vec<NodeIdx> = tour.all_nodes_iter().collect();
+    // the property quantifies over valid tours; a dummy tour that lost its connecting slots is none
+    if !is_path(&cx.ad, &cx.inst, &t_nodes) {
+        cx.probe("tour_that_is_not_a_path_skipped");
+        return;
+    }
     // the path argument: explicit nodes, or the sub-tour between a and b
     let mut p_nodes = p_nodes;
     if p_nodes.is_empty() {
